@@ -82,6 +82,9 @@ impl EntityReactors
             );
     }
 
+    #[cfg(feature = "verif_hooks")]
+    pub(crate) fn verif_iter(&self) -> impl Iterator<Item = &(EntityReactionType, ReactorHandle)> + '_ { self.reactors.iter() }
+
     pub(crate) fn count(&self, rtype: EntityReactionType) -> usize
     {
         self.iter_rtype(rtype).count()
